@@ -74,7 +74,7 @@ def random_callset(rng, nsamples=None, nrecords=None, p_missing=None, p_multi=No
     use_info = extras and rng.random() < 0.5
     use_fmt = extras and rng.random() < 0.5
     if use_info:
-        info_defs = {"DP": ("1", "Integer"), "AF": ("A", "Float"), "DB": ("0", "Flag")}
+        info_defs = {"DP": ("1", "Integer"), "AF": ("A", "Float"), "DB": ("0", "Flag"), "XL": (".", "Integer")}
     if use_fmt:
         fmt_defs.update({"AD": ("R", "Integer"), "DP": ("1", "Integer"), "GQ": ("1", "Integer")})
     filters = ["PASS", "q10"] if rng.random() < 0.3 else ["PASS"]
@@ -128,6 +128,9 @@ def random_callset(rng, nsamples=None, nrecords=None, p_missing=None, p_multi=No
                 info["AF"] = [round(rng.random(), 3) for _ in alts]
             if rng.random() < 0.3:
                 info["DB"] = True
+            if rng.random() < 0.2:
+                # a vector of 15 or more values: BCF needs the extended length encoding (0xF? descriptor + typed length)
+                info["XL"] = [rng.randrange(-100, 40000) for _ in range(rng.choice([14, 15, 16, 31, 40]))]
         extra_fmt = {}
         if use_fmt and rng.random() < 0.8:
             extra_fmt["DP"] = [None if rng.random() < 0.1 else rng.randrange(0, 300) for _ in range(ns)]
